@@ -81,26 +81,28 @@ static void run_case(int nf, struct field *f)
 		} else out_str(" DIED");
 		for (int i = 0; i < nf - 1; i++) free((void *)s[i]);
 		free(s);
-	} else if (f[0].len == 1 && f[0].p[0] == 0xbb) {	/* R */
-		r_stream = f[1].p; r_len = f[1].len; r_pos = 0;
-		r_cuts = nf > 2 ? f[2].p : NULL; r_ncuts = nf > 2 ? f[2].len : 0; r_cut = 0;
-		linenlen = 0; linein.len = 0;
-		timeout = 1;
-		int first = 1;
-		if (setjmp(h_die) == 0) {
-			for (int guard = 0; guard < 100000; guard++) {
-				int r = net_read(1);
-				if (!first) out_str(" ");
-				first = 0;
-				if (r == 0) { out_str("L"); out_hex(linein.s, linein.len); }
-				else if (errno == EINVAL) out_str("EINVAL");
-				else if (errno == E2BIG) out_str("E2BIG");
-				else { out_str("ERR"); out_int(errno); }
+	} else if (f[0].len == 1 && f[0].p[0] == 0xbb) {	/* R: one reader run per schedule field */
+		for (int sc = 2; sc < (nf > 2 ? nf : 3); sc++) {
+			r_stream = f[1].p; r_len = f[1].len; r_pos = 0;
+			r_cuts = nf > 2 ? f[sc].p : NULL; r_ncuts = nf > 2 ? f[sc].len : 0; r_cut = 0;
+			linenlen = 0; linein.len = 0;
+			timeout = 1;
+			if (sc > 2) out_str(" ||");
+			if (setjmp(h_die) == 0) {
+				int guard;
+				for (guard = 0; guard < 100000; guard++) {
+					int r = net_read(1);
+					out_str(" ");
+					if (r == 0) { out_str("L"); out_hex(linein.s, linein.len); }
+					else if (errno == EINVAL) out_str("EINVAL");
+					else if (errno == E2BIG) out_str("E2BIG");
+					else { out_str("ERR"); out_int(errno); }
+					out_str("@"); out_int((long)(linenlen + (r_len - r_pos)));
+				}
+				out_str(" RUNAWAY");
+			} else {
+				out_str(" DEAD");
 			}
-			out_str(" RUNAWAY");
-		} else {
-			if (!first) out_str(" ");
-			out_str("DEAD");
 		}
 	} else out_str("BADCASE");
 	(void)w_first;
